@@ -116,6 +116,19 @@ class LenClass:
             self.conflicts.append(Conflict(node, a, b, what))
         return TOP
 
+    @staticmethod
+    def _empty_literal(n: Node) -> bool:
+        if n.op in ("List", "Tuple"):
+            return not n.args
+        if n.op == "Call" and n.args and n.args[0].op == "Ext" and n.attr[1] >= 1:
+            q, a = n.args[0].attr, n.args[1]
+            if q in ("numpy.array", "numpy.asarray"):
+                return a.op in ("List", "Tuple") and not a.args
+            if q in ("numpy.empty", "numpy.zeros"):
+                return (a.op == "Const" and a.attr == 0 and a.attr is not False) or \
+                    (a.op in ("Tuple", "List") and len(a.args) == 1 and a.args[0].op == "Const" and a.args[0].attr == 0)
+        return False
+
     def is_masklike(self, idx: Node) -> bool:
         if idx.op == "Compare":
             return True
@@ -345,6 +358,12 @@ class LenClass:
                 if not hasattr(self, "size_decisions"):
                     self.size_decisions = []
                 self.size_decisions.append((n, sz))
+            # the empty-batch arm of an emptiness guard (`np.array([])`, `np.empty(0)`) holds no event at all: the
+            # value belongs to the population of the other arm
+            if self._empty_literal(a):
+                return self.of(b)
+            if self._empty_literal(b):
+                return self.of(a)
             ca, cb = self.of(a), self.of(b)
             if ca == cb:
                 return ca
@@ -409,7 +428,12 @@ class LenClass:
                     self.conflicts.append(Conflict(n, cb, ci, "store mask belongs to a different event "
                                                                 "population than the array it indexes"))
                 want = ("SEL", cb if is_def(cb) else ci, self.g.vn(idx))
-                if is_def(cv) and is_def(want[1]) and cv != want:
+                if n.extra and n.extra.get("aligned_values"):
+                    # np.putmask / np.copyto(where=): the values are taken AT the masked positions of a full-size array
+                    if is_def(cv) and is_def(want[1]) and cv != want[1]:
+                        self.conflicts.append(Conflict(n, want[1], cv, "np.putmask / np.copyto take their values at the "
+                                                                         "masked positions: they must cover every event"))
+                elif is_def(cv) and is_def(want[1]) and cv != want:
                     self.conflicts.append(Conflict(n, want, cv, "stored values are not the selection made by "
                                                                 "the store mask"))
             elif idx.op == "Const" and idx.attr is Ellipsis:
